@@ -227,6 +227,7 @@ type Path struct {
 	held     []string          // textual lock-set trace for notes
 	panicked bool
 	panicVal *Val
+	created  []madeClosure // closures with captured invariants created on this path
 	depth    int
 	allocs   []string
 	dead     bool
@@ -240,7 +241,7 @@ func (p *Path) top() *frame { return p.frames[len(p.frames)-1] }
 
 func (p *Path) clone() *Path {
 	q := &Path{heap: p.heap.clone(), assumes: append([]string(nil), p.assumes...), now: p.now, depth: p.depth,
-		panicked: p.panicked, panicVal: p.panicVal, allocs: append([]string(nil), p.allocs...)}
+		panicked: p.panicked, panicVal: p.panicVal, created: append([]madeClosure(nil), p.created...), allocs: append([]string(nil), p.allocs...)}
 	q.nonnil = map[string]bool{}
 	for k := range p.nonnil {
 		q.nonnil[k] = true
@@ -303,6 +304,11 @@ type outcome struct {
 }
 
 // ---------- obligations ----------
+
+type madeClosure struct {
+	fn    *ssa.Function
+	binds []Val
+}
 
 func (c *FnCtx) oblige(p *Path, kind, label, goal, src string, props []string) {
 	if goal == "true" {
@@ -1129,6 +1135,12 @@ func (c *FnCtx) execSimple(p *Path, ins ssa.Instruction) {
 			v.Bind = append(v.Bind, c.val(p, b))
 		}
 		fr.regs[x] = v
+		// a closure with `captured` invariants: they must hold of what it captures here (and still when this
+		// function returns, see capturedAtExit)
+		if fcc := c.eng.contractOf(fn); fcc != nil && len(fcc.Captured) > 0 {
+			c.capturedOf(p, fn, v.Bind, "pre", "", nil)
+			p.created = append(p.created, madeClosure{fn, v.Bind})
+		}
 	case *ssa.MakeSlice:
 		ln := c.val(p, x.Len)
 		cp := c.val(p, x.Cap)
